@@ -15,7 +15,8 @@ Not theorems (see `open_obligations` in conf/C07.json): that the orbit maps comp
 orbifold as `delaney2d::orbifold_symbol` — both are decided by the Spec on every explored
 (D-set, geometry).
 -/
-import DSymVerif.Proofs.DSymGenCurv
+import DSymVerif.Proofs.DSymGenGeom
+import DSymVerif.Proofs.DSymGenBox
 import DSymVerif.Proofs.Delaney2dChi
 import DSymVerif.Spec.C07
 
@@ -229,5 +230,119 @@ example : ∃ c, mkCtx ex1 .all = .ok c ∧ WF c ∧ c.vmins.length = c.count :=
   have h : (mkCtx ex1 .all).isOk = true := by decide +kernel
   match hm : mkCtx ex1 .all, h with
   | .ok c, _ => exact ⟨c, rfl, mkCtx_wf hm, rfl⟩
+
+/-! ### 5. what `children` keeps, and what the generator emits -/
+
+/-- **`children_exhaustive`**: in a reachable state of a context built by `new` (with
+    `base_curvature ≥ 0`, `next < count`) the children are exactly the states pushed by the loop
+    body for the values `v ∈ vs[next]..=7` that are reached without `break` (every earlier value
+    gave curvature ≥ 0 or below the window): for curvature ≥ 0 inside the window the state with
+    `next + 1`, for the first negative curvature inside the window the terminal state if it is
+    minimally hyperbolic.  Nothing else is produced and `children` does not panic. -/
+theorem children_exhaustive (ds : DSetData) (g : Geom) (c : Ctx) (h : mkCtx ds g = .ok c)
+    (s : State) (hr : BT.Reach (problem c) (root c) (.st s)) (hn : s.next < c.count)
+    (hnb : ¬ c.baseCurv < 0) (x : Node) :
+    x ∈ children c (.st s) ↔
+      ∃ s' v, x = .st s' ∧ s.vs.getD s.next 0 ≤ v ∧ v ≤ Tables.genVMax ∧
+        (∀ w, s.vs.getD s.next 0 ≤ w → w < v → Passes c s s.next (s.vs.getD s.next 0) w) ∧
+        Pushed c s s.next (s.vs.getD s.next 0) v s' := by
+  have hw := mkCtx_wf h
+  obtain ⟨s', hs', hi⟩ := reach_root_inv hw _ hr
+  cases hs'
+  exact children_iff hw hi hn hnb x
+
+/-- stopping at the first negative value loses nothing, because the bookkeeping value is antitone
+    in every branching number: raising entries (within 1..7) never raises the curvature -/
+theorem curvature_antitone (c : Ctx) (vs ws : List Nat)
+    (h : ∀ i, i < c.count → 1 ≤ ws.getD i 0 ∧ ws.getD i 0 ≤ vs.getD i 0 ∧ vs.getD i 0 ≤ Tables.genVMax) :
+    scaled c vs ≤ scaled c ws :=
+  scaled_mono c vs ws h
+
+example : ∃ c, mkCtx ex1 .all = .ok c ∧
+    (∀ i, i < c.count → 1 ≤ c.vmins.getD i 0 ∧ c.vmins.getD i 0 ≤ c.vmins.getD i 0 ∧
+      c.vmins.getD i 0 ≤ Tables.genVMax) := by
+  have h : (mkCtx ex1 .all).isOk = true := by decide +kernel
+  match hm : mkCtx ex1 .all, h with
+  | .ok c, _ =>
+    have hw := mkCtx_wf hm
+    exact ⟨c, rfl, fun i hi => ⟨hw.vminPos i hi, Nat.le_refl _, hw.vminLe i hi⟩⟩
+
+/-- the lower end `-CURV_FAC` of the hyperbolic window "is implied by minimal hyperbolicity" -/
+theorem min_hyperbolic_window (c : Ctx) (hw : WF c) (vs : List Nat) (ha : Adm c vs) (hm : MinHyp c vs)
+    (hnb : ¬ c.baseCurv < 0) : -curvFac ≤ scaled c vs :=
+  minHyp_ge hw ha hm hnb
+
+/-- **`dsyms_output`**: for every D-set and geometry whose context has `base_curvature ≥ 0`, a
+    vector is emitted by the model of `DSyms` iff it has one entry per orbit between the orbit's
+    minimum and 7, its *exact rational* curvature meets the geometry's condition (spherical:
+    positive; euclidean: zero; hyperbolic: negative and non-negative after lowering any single
+    entry above its minimum by one; all: any of these — with the source's upper end
+    `4 * CURV_FAC` on the positive side), it passes `is_good` and it is canonical with respect to
+    the orbit maps (`is_canonical`). -/
+theorem dsyms_output (ds : DSetData) (g : Geom) (c : Ctx) (h : mkCtx ds g = .ok c)
+    (hnb : ¬ c.baseCurv < 0) (vs : List Nat) :
+    Outcome.ok vs ∈ dsyms c ↔
+      Adm c vs ∧ GeomCond g c vs ∧
+      isGood c vs (scaled c vs) = .ok true ∧ isCanonical c vs = .ok true := by
+  have hw := mkCtx_wf h
+  obtain ⟨_, _, _, _, _, _, hmin, hmax, _, _⟩ := mkCtx_fields h
+  rw [if_neg hnb] at hmin
+  rw [dsyms_mem_iff hw hnb]
+  constructor
+  · rintro ⟨ha, h1, h2, h3, h4, h5⟩
+    exact ⟨ha, (window_iff hw hnb g hmin hmax ha).mp ⟨h1, h2, h3⟩, h4, h5⟩
+  · rintro ⟨ha, hg, h4, h5⟩
+    obtain ⟨h1, h2, h3⟩ := (window_iff hw hnb g hmin hmax ha).mpr hg
+    exact ⟨ha, h1, h2, h3, h4, h5⟩
+
+/-- `base_curvature < 0` (already the all-minimal vector is hyperbolic): the generator emits
+    that vector if it lies in the window, and nothing else -/
+theorem dsyms_output_base_negative (c : Ctx) (hb : c.baseCurv < 0) :
+    dsyms c = if c.baseCurv ≥ c.minCurv ∧ c.baseCurv ≤ c.maxCurv then [.ok c.vmins] else [] :=
+  dsyms_base_neg hb
+
+example : ∃ c, mkCtx ex1 .all = .ok c ∧ ¬ c.baseCurv < 0 := by
+  refine ⟨_, rfl, ?_⟩
+  decide +kernel
+
+/-! ### 6. the oracle's box -/
+
+/-- **`box_suffices`**: for orbit data with positive sizes and periods (`orbitsOk`), whenever the
+    decidable premise `boxPremise` that the Spec evaluates for the D-set holds (wherever a member
+    of the box vmin ≤ v ≤ 8 has K ≥ 0, K stays ≥ 0 when the contributions of all orbits sitting
+    at 8 are removed), every branching assignment *whatsoever* with v ≥ vmin on every orbit and
+    K = 0 lies in the box — all its entries are < 8 — and every such assignment that is
+    minimally hyperbolic lies in the box.  (The spherical clause is bounded by 7 in the property
+    itself.)  So the oracle's filtered box is the full expected set. -/
+theorem box_suffices (n : Nat) (orbs : List SpecC07.Orbit) (hok : SpecC07.orbitsOk orbs = true)
+    (hp : SpecC07.boxPremise n orbs (orbs.map fun o => SpecC07.vminOf o.r) SpecC07.boxTop = true)
+    (a : List Nat) (hlen : a.length = orbs.length)
+    (hadm : ∀ i, i < orbs.length → (orbs.map fun o => SpecC07.vminOf o.r).getD i 0 ≤ a.getD i 0) :
+    ((SpecC07.curvature n orbs a).isZero = true →
+        a ∈ SpecC07.boxOf (orbs.map fun o => SpecC07.vminOf o.r) SpecC07.boxTop ∧
+        ∀ i, i < a.length → a.getD i 0 < SpecC07.boxTop) ∧
+    (SpecC07.minimallyHyperbolic n orbs (orbs.map fun o => SpecC07.vminOf o.r) a = true →
+        a ∈ SpecC07.boxOf (orbs.map fun o => SpecC07.vminOf o.r) SpecC07.boxTop) :=
+  SpecC07.box_suffices_lists n orbs hok hp a hlen hadm
+
+/-- the Spec's fraction arithmetic is exact: its `curvature` of an assignment with entries ≥ 1
+    has the value Σ_orbits (|o|/r_o)/a_o − size/2 in ℚ -/
+theorem spec_curvature_exact (n : Nat) (orbs : List SpecC07.Orbit) (hok : SpecC07.orbitsOk orbs = true)
+    (a : List Nat) (hlen : a.length = orbs.length) (ha : ∀ i, i < a.length → 1 ≤ a.getD i 0) :
+    (SpecC07.curvature n orbs a).den ≠ 0 ∧
+    (SpecC07.curvature n orbs a).val =
+      ∑ i ∈ Finset.range orbs.length,
+        ((orbs.getD i default).members.length : ℚ) / ((orbs.getD i default).r : ℚ) / (a.getD i 0 : ℚ)
+        - (n : ℚ) / 2 :=
+  SpecC07.curvature_val n hok a hlen ha
+
+/-- witness: the one-chamber D-set has two orbits of one chamber and period 1 -/
+def exOrbs : List SpecC07.Orbit := [⟨0, [1], 1⟩, ⟨1, [1], 1⟩]
+
+example : SpecC07.orbitsOk exOrbs = true ∧
+    SpecC07.boxPremise 1 exOrbs (exOrbs.map fun o => SpecC07.vminOf o.r) SpecC07.boxTop = true ∧
+    (SpecC07.curvature 1 exOrbs [3, 6]).isZero = true ∧
+    SpecC07.minimallyHyperbolic 1 exOrbs (exOrbs.map fun o => SpecC07.vminOf o.r) [3, 7] = true := by
+  decide +kernel
 
 end DSymVerif.C07
